@@ -265,4 +265,219 @@ theorem wf_run (ops : List Op) (st : St) (h : st.wf) : (run ops st).wf := by
   | nil => exact h
   | cons o os ih => exact ih _ (wf_step o st h)
 
+/-! ### given vs enumerated -/
+
+theorem filter_entry (o : Option Term) (nm : String) (q : Term) :
+    ((o.map fun v' => (⟨A nm, v'⟩ : Args)).toList.filter fun a => decide (a.f = q)) =
+      if A nm = q then (o.map fun v' => (⟨A nm, v'⟩ : Args)).toList else [] := by
+  cases o <;> by_cases h : A nm = q <;> simp [h]
+
+theorem specGet_var_answers (n : Nat) (v : Term) (st : St) :
+    (specGet (.var n) v st).answers =
+      ((unifyArg v (.int 255)).map fun v' => (⟨A "max_arity", v'⟩ : Args)).toList ++
+      ((unifyArg v (A "false")).map fun v' => (⟨A "bounded", v'⟩ : Args)).toList ++
+      ((unifyArg v (A "toward_zero")).map fun v' => (⟨A "integer_rounding_function", v'⟩ : Args)).toList ++
+      ((unifyArg v st.dq.toAtom).map fun v' => (⟨A "double_quotes", v'⟩ : Args)).toList ++
+      ((unifyArg v st.unk.toAtom).map fun v' => (⟨A "unknown", v'⟩ : Args)).toList ++
+      ((unifyArg v st.oc.flagValue).map fun v' => (⟨A "occurs_check", v'⟩ : Args)).toList ++
+      ((unifyArg v (answerWriteOptions st)).map fun v' => (⟨A "answer_write_options", v'⟩ : Args)).toList := by
+  simp [specGet, Flag.enumOrder, filterMap_cons_toList, Flag.value, Flag.name]
+
+theorem given_eq_enumerated_spec (f v : Term) (n : Nat) (st : St) (hf : f.isVar = false) :
+    (specGet f v st).answers = (specGet (.var n) v st).answers.filter fun a => decide (a.f = f) := by
+  rw [specGet_var_answers]
+  simp only [List.filter_append, filter_entry]
+  cases f with
+  | var m => simp [Term.isVar] at hf
+  | atom s =>
+    cases h : Flag.ofName? s with
+    | none =>
+      obtain ⟨h1, h2, h3, h4, h5, h6, h7, h8, h9⟩ := ofName_none h
+      simp [specGet, h, Ne.symm h1, Ne.symm h2, Ne.symm h3, Ne.symm h4, Ne.symm h5, Ne.symm h8, Ne.symm h9]
+    | some k =>
+      rw [ofName_some h]
+      cases k <;> simp [specGet, Flag.ofName?, Flag.name, Flag.value] <;> cases unifyArg v _ <;> rfl
+  | int i => simp [specGet]
+  | flt b => simp [specGet]
+  | c1 g a => simp [specGet]
+  | c2 g a b => simp [specGet]
+
+/-! ### set succeeds iff the value reads back -/
+
+@[simp] theorem isVar_var (n : Nat) : (Term.var n).isVar = true := rfl
+@[simp] theorem isVar_atom (s : String) : (Term.atom s).isVar = false := rfl
+@[simp] theorem isVar_int (i : Int) : (Term.int i).isVar = false := rfl
+@[simp] theorem isVar_flt (b : String) : (Term.flt b).isVar = false := rfl
+@[simp] theorem isVar_c1 (g : String) (a : Term) : (Term.c1 g a).isVar = false := rfl
+@[simp] theorem isVar_c2 (g : String) (a b : Term) : (Term.c2 g a b).isVar = false := rfl
+
+theorem specSet_known (k : Flag) (v : Term) (st : St) (hv : v.isVar = false) :
+    specSet (A k.name) v st =
+      match k.vclass v with
+      | .inst => ⟨[], some (Err.inst.term ⟨A k.name, v⟩), st⟩
+      | .bad => ⟨[], some (Err.domValue.term ⟨A k.name, v⟩), st⟩
+      | .ok =>
+        if k.writable then ⟨[⟨A k.name, v⟩], none, k.store v st⟩
+        else if k.value st = some v then ⟨[⟨A k.name, v⟩], none, st⟩
+        else ⟨[], none, st⟩ := by
+  cases hc : k.vclass v <;> simp [specSet, hv, ofName_name, hc]
+
+theorem specSet_unknown_atom (s : String) (v : Term) (st : St) (hv : v.isVar = false)
+    (h : Flag.ofName? s = none) :
+    specSet (.atom s) v st = ⟨[], some (Err.domFlag.term ⟨.atom s, v⟩), st⟩ := by
+  simp [specSet, hv, h]
+
+theorem specSet_nonatom (f v : Term) (st : St) (hf : f.isVar = false) (ha : f.isAtom = false)
+    (hv : v.isVar = false) :
+    specSet f v st = ⟨[], some (Err.typeAtom.term ⟨f, v⟩), st⟩ := by
+  cases f <;> simp [Term.isAtom] at hf ha <;> simp [specSet, hv]
+
+theorem specSet_anyvar (f v : Term) (st : St) (h : (f.isVar || v.isVar) = true) :
+    specSet f v st = ⟨[], some (A "instantiation_error"), st⟩ := by
+  simp [specSet, h, Err.term]
+
+theorem unifyArg_self (v : Term) : unifyArg v v = some v := by
+  cases v <;> simp [unifyArg]
+
+theorem unifyArg_ne (v t : Term) (hv : v.isVar = false) (h : v ≠ t) : unifyArg v t = none := by
+  cases v <;> simp [Term.isVar] at hv <;> simp [unifyArg, h]
+
+theorem unifyArg_nonvar (v t : Term) (hv : v.isVar = false) :
+    (unifyArg v t).isSome = decide (v = t) := by
+  by_cases h : v = t
+  · subst h; simp [unifyArg_self]
+  · simp [unifyArg_ne v t hv h, h]
+
+theorem checkWriteOptions_nil : checkWriteOptions nil = .ok := by
+  simp [checkWriteOptions, listView, nil, checkOptionsSeq]
+
+/-- in a reachable state every flag's current value is appropriate for the flag. -/
+theorem vclass_value (k : Flag) (st : St) (t : Term) (h : st.wf) (hv : k.value st = some t) :
+    k.vclass t = .ok := by
+  cases k <;> simp [Flag.value] at hv <;> subst hv
+  case awo =>
+    simp only [Flag.vclass, answerWriteOptions]
+    unfold St.wf at h
+    split <;> simp_all [checkWriteOptions_nil]
+  case doubleQuotes => cases hd : st.dq <;> simp [Flag.vclass, DQ.toAtom]
+  case unknown => cases hd : st.unk <;> simp [Flag.vclass, Unk.toAtom]
+  case occursCheck => cases hd : st.oc <;> simp [Flag.vclass, OC.flagValue]
+  all_goals simp [Flag.vclass, Term.isInt]
+
+theorem specGet_known_succeeded (k : Flag) (v : Term) (st : St) (hv : v.isVar = false) :
+    (specGet (A k.name) v st).succeeded = decide (k.value st = some v) := by
+  simp only [specGet, ofName_name]
+  cases hk : k.value st with
+  | none => simp [Outcome.succeeded]
+  | some t =>
+    by_cases h : v = t
+    · subst h; simp [unifyArg_self, Outcome.succeeded]
+    · have h' : t ≠ v := fun e => h e.symm
+      simp [unifyArg_ne v t hv h, Outcome.succeeded, h']
+
+theorem set_iff_reads_back_spec (f v : Term) (st : St) (hwf : st.wf)
+    (hf : f.isVar = false) (hv : v.isVar = false) :
+    (specSet f v st).succeeded = (specGet f v (specSet f v st).st).succeeded := by
+  cases f with
+  | var m => simp at hf
+  | atom s =>
+    cases h : Flag.ofName? s with
+    | none => simp [specSet_unknown_atom s v st hv h, specGet, h, Outcome.succeeded]
+    | some k =>
+      have hs := ofName_some h
+      subst hs
+      rw [specGet_known_succeeded k v _ hv, specSet_known k v st hv]
+      cases hc : k.vclass v with
+      | ok =>
+        cases hw : k.writable with
+        | true => simp [Outcome.succeeded, value_store k v st hw hc]
+        | false =>
+          by_cases hval : k.value st = some v <;> simp [hval, Outcome.succeeded]
+      | inst =>
+        have : k.value st ≠ some v := fun e => by
+          have := vclass_value k st v hwf e; rw [hc] at this; cases this
+        simp [Outcome.succeeded, this]
+      | bad =>
+        have : k.value st ≠ some v := fun e => by
+          have := vclass_value k st v hwf e; rw [hc] at this; cases this
+        simp [Outcome.succeeded, this]
+  | int i => simp [specSet_nonatom (.int i) v st rfl rfl hv, specGet, Outcome.succeeded]
+  | flt b => simp [specSet_nonatom (.flt b) v st rfl rfl hv, specGet, Outcome.succeeded]
+  | c1 g a => simp [specSet_nonatom (.c1 g a) v st rfl rfl hv, specGet, Outcome.succeeded]
+  | c2 g a b => simp [specSet_nonatom (.c2 g a b) v st rfl rfl hv, specGet, Outcome.succeeded]
+
+/-! ### histories -/
+
+/-- the value a write operation stores into flag `k`, if it is an effective write to `k`. -/
+def Op.writes (k : Flag) : Op → Option Term
+  | .set f v => if f = A k.name ∧ v.isVar = false ∧ k.vclass v = .ok then some v else none
+  | .get _ _ => none
+
+/-- value of `k` after a history, computed from the history alone: the last effective write,
+    or the starting value. -/
+def expectedValue (k : Flag) : List Op → Option Term → Option Term
+  | [], cur => cur
+  | o :: os, cur => expectedValue k os (match o.writes k with | some v => some v | none => cur)
+
+theorem value_step (k : Flag) (hw : k.writable = true) (o : Op) (st : St) :
+    k.value (fixed.step o st).st = match o.writes k with | some v => some v | none => k.value st := by
+  cases o with
+  | get f v => simp [step_st_get, get_st, Op.writes]
+  | set f v =>
+    rw [step_st_set, set_eq_spec]
+    rcases specSet_st_cases f v st with e | ⟨k', hf, hw', hc, hv, e, _, _⟩
+    · rw [e]
+      -- state unchanged: either not an effective write to k, or …
+      by_cases h : f = A k.name ∧ v.isVar = false ∧ k.vclass v = .ok
+      · -- an effective write to a writable flag always stores
+        obtain ⟨h1, h2, h3⟩ := h
+        subst h1
+        rw [specSet_known k v st h2, h3] at e
+        simp [hw] at e
+        simp [Op.writes, h2, h3]
+        rw [← e, value_store k v st hw h3]
+      · simp [Op.writes, h]
+    · rw [e]
+      by_cases hk : k' = k
+      · subst hk
+        simp [Op.writes, hf, hv, hc, value_store k' v st hw' hc]
+      · have : ¬ (f = A k.name) := by
+          rw [hf]; intro h; injection h with h; exact hk (name_injective h)
+        simp [Op.writes, this, value_store_other k' k v st (fun h => hk h.symm)]
+
+theorem value_run (k : Flag) (hw : k.writable = true) (ops : List Op) (st : St) :
+    k.value (run ops st) = expectedValue k ops (k.value st) := by
+  induction ops generalizing st with
+  | nil => rfl
+  | cons o os ih =>
+    show k.value (fixed.run os (fixed.step o st).st) = _
+    rw [show fixed.run os (fixed.step o st).st = run os (fixed.step o st).st from rfl, ih,
+      value_step k hw o st]
+    rfl
+
+theorem value_readonly (k : Flag) (hw : k.writable = false) (st st' : St) :
+    k.value st = k.value st' := by
+  cases k <;> simp [Flag.writable] at hw <;> rfl
+
+theorem specSet_readonly_st (k : Flag) (hw : k.writable = false) (v : Term) (st : St) :
+    (specSet (A k.name) v st).st = st := by
+  rcases specSet_st_cases (A k.name) v st with e | ⟨k', hf, hw', _⟩
+  · exact e
+  · injection hf with hf
+    rw [← name_injective hf] at hw'; rw [hw] at hw'; cases hw'
+
+/-- the three behavioural components are functions of the corresponding flag value. -/
+theorem dq_of_value (st st' : St) (h : Flag.doubleQuotes.value st = Flag.doubleQuotes.value st') :
+    st.dq = st'.dq := by
+  simp [Flag.value] at h
+  cases h1 : st.dq <;> cases h2 : st'.dq <;> simp [h1, h2, DQ.toAtom] at h ⊢
+theorem unk_of_value (st st' : St) (h : Flag.unknown.value st = Flag.unknown.value st') :
+    st.unk = st'.unk := by
+  simp [Flag.value] at h
+  cases h1 : st.unk <;> cases h2 : st'.unk <;> simp [h1, h2, Unk.toAtom] at h ⊢
+theorem oc_of_value (st st' : St) (h : Flag.occursCheck.value st = Flag.occursCheck.value st') :
+    st.oc = st'.oc := by
+  simp [Flag.value] at h
+  cases h1 : st.oc <;> cases h2 : st'.oc <;> simp [h1, h2, OC.flagValue] at h ⊢
+
 end Scryer.Flags
